@@ -328,7 +328,7 @@ impl VisitMut for Passes {
 
 // ---- R-HOISTARGS: at configured call sites the (side-effect free) argument expressions are bound to locals first, so
 // that contract text can name them:  f(a, b)  ==>  let v_hK_0 = a; let v_hK_1 = b; f(v_hK_0, v_hK_1)
-struct FindCall<'a> { method: &'a str, found: Option<Vec<Expr>>, site: usize, impure: bool, recv: bool, recv_expr: Option<Expr> }
+struct FindCall<'a> { method: &'a str, found: Option<Vec<Expr>>, site: usize, impure: bool, recv: bool, recv_expr: Option<Expr>, recv_try: Option<String> }
 impl<'a> VisitMut for FindCall<'a> {
     fn visit_expr_mut(&mut self, e: &mut Expr) {
         if self.found.is_some() { return; }
@@ -344,7 +344,8 @@ impl<'a> VisitMut for FindCall<'a> {
         if is_target && self.recv {
             if let Expr::MethodCall(m) = e {
                 let txt = norm(&m.receiver);
-                if txt.contains('?') || txt.contains("return") { self.impure = true; }
+                if txt.contains("return") { self.impure = true; }
+                if txt.contains('?') { self.recv_try = Some(txt.clone()); }
                 let id = Ident::new(&format!("v_h{}_r", self.site), proc_macro2::Span::call_site());
                 self.recv_expr = Some((*m.receiver).clone());
                 m.receiver = Box::new(parse_quote!( #id ));
@@ -357,7 +358,8 @@ impl<'a> VisitMut for FindCall<'a> {
             let mut olds = vec![];
             for (k, a) in args.iter_mut().enumerate() {
                 let txt = norm(a);
-                if txt.contains('?') || txt.contains("return") || txt.contains("=") && !txt.contains("==") { self.impure = true; }
+                // building a closure evaluates nothing; any other argument must not contain `?`, `return` or an assignment
+                if !matches!(a, Expr::Closure(_)) && (txt.contains('?') || txt.contains("return") || txt.contains("=") && !txt.contains("==")) { self.impure = true; }
                 let id = Ident::new(&format!("v_h{}_{}", self.site, k), proc_macro2::Span::call_site());
                 olds.push(a.clone());
                 *a = parse_quote!( #id );
@@ -376,12 +378,26 @@ impl<'a> VisitMut for Hoister<'a> {
         for mut st in stmts {
             let compound_loop = matches!(&st, Stmt::Expr(Expr::ForLoop(_) | Expr::While(_) | Expr::Loop(_) | Expr::Block(_) | Expr::Match(_), _));
             if !compound_loop {
-                let mut fc = FindCall { method: self.method, found: None, site: self.site, impure: false, recv: self.recv, recv_expr: None };
+                let mut fc = FindCall { method: self.method, found: None, site: self.site, impure: false, recv: self.recv, recv_expr: None, recv_try: None };
+                let st_txt = norm(&st);
                 match &mut st {
                     Stmt::Expr(Expr::If(ife), _) => { fc.visit_expr_mut(&mut ife.cond); }
                     Stmt::Expr(e, _) => { fc.visit_expr_mut(e); }
                     Stmt::Local(l) => { if let Some(init) = &mut l.init { fc.visit_expr_mut(&mut init.expr); } }
                     _ => {}
+                }
+                if let Some(rt) = fc.recv_try.take() {
+                    // a receiver containing `?` may only be evaluated earlier if nothing else of the statement is evaluated before it:
+                    // the statement text in front of it must be `let PAT =` followed only by callee paths and opening parentheses
+                    let pure_prefix = match st_txt.find(&rt) {
+                        Some(ix) => {
+                            let pre = &st_txt[..ix];
+                            let pre = match pre.find('=') { Some(e) if pre.starts_with("let") => &pre[e + 1..], _ => pre };
+                            pre.chars().all(|c| c.is_alphanumeric() || c == '_' || c == ':' || c == '<' || c == '>' || c == '(')
+                        }
+                        None => false,
+                    };
+                    if !pure_prefix { fc.impure = true; }
                 }
                 if let Some(r) = fc.recv_expr.take() {
                     let id = Ident::new(&format!("v_h{}_r", self.site), proc_macro2::Span::call_site());
@@ -1089,8 +1105,10 @@ fn process_fn(cx: &mut Ctx, vis: &Visibility, sig: &Signature, block: &Block, in
     }
     for (f, method) in cx.o.hoist.iter() {
         if *f != name || method == "@ret" { continue; }
-        let (mname, recv) = match method.strip_suffix("@recv") { Some(m) => (m, true), None => (method.as_str(), false) };
-        let mut h = Hoister { method: mname, recv, site: if recv { 100 } else { 0 }, log: vec![], errors: vec![] };
+        // optional "#N" suffix: first site number (keeps the generated names of several hoist directives apart)
+        let (method, base): (&str, Option<usize>) = match method.rsplit_once('#') { Some((m, n)) => (m, n.parse().ok()), None => (method.as_str(), None) };
+        let (mname, recv) = match method.strip_suffix("@recv") { Some(m) => (m, true), None => (method, false) };
+        let mut h = Hoister { method: mname, recv, site: base.unwrap_or(if recv { 100 } else { 0 }), log: vec![], errors: vec![] };
         h.visit_block_mut(&mut block);
         cx.p.log.extend(h.log);
         cx.errors.extend(h.errors);
